@@ -234,6 +234,18 @@ where Pr: VInt + Into<usize> + AsPrimitive<usize> + Into<f64>, usize: AsPrimitiv
 
         if mode == "c03" || mode == "c20" {
             if let Built::Model(m) = &cc { run!(rep, case, exp.chk_enc::<_, P>("ContiguousCategoricalEntropyModel", m)); run!(rep, case, exp.chk_dec::<_, P>("ContiguousCategoricalEntropyModel", m)); run!(rep, case, exp.chk_iter::<_, P>("ContiguousCategoricalEntropyModel", m)); }
+            // models that the library builds by conversion must satisfy the contract on their own (C03); that they are the
+            // SAME model as their source is C05's business and is not compared here
+            if let Built::Model(m) = &cc {
+                run!(rep, case, contract_dec::<_, P>("ContiguousCategoricalEntropyModel::to_lookup_decoder_model (contract)", &m.to_lookup_decoder_model()).map(|_| 1));
+                run!(rep, case, contract_dec::<_, P>("ContiguousCategoricalEntropyModel::to_generic_lookup_decoder_model (contract)", &m.to_generic_lookup_decoder_model()).map(|_| 1));
+                run!(rep, case, contract_dec::<_, P>("ContiguousCategoricalEntropyModel::to_generic_decoder_model (contract)", &m.to_generic_decoder_model()).map(|_| 1));
+                rep.class("converted_models_contract");
+            }
+            if let Built::Model(m) = &nd {
+                run!(rep, case, contract_dec::<_, P>("NonContiguousCategoricalDecoderModel::to_lookup_decoder_model (contract)", &m.to_lookup_decoder_model()).map(|_| 1));
+                run!(rep, case, contract_dec::<_, P>("NonContiguousCategoricalDecoderModel::to_generic_lookup_decoder_model (contract)", &m.to_generic_lookup_decoder_model()).map(|_| 1));
+            }
             if let Built::Model(m) = &cl { run!(rep, case, exp.chk_dec::<_, P>("ContiguousLookupDecoderModel", m)); run!(rep, case, exp.chk_iter::<_, P>("ContiguousLookupDecoderModel", m)); }
             if let Built::Model(m) = &nd { run!(rep, case, expr.chk_dec::<_, P>("NonContiguousCategoricalDecoderModel", m)); run!(rep, case, expr.chk_iter::<_, P>("NonContiguousCategoricalDecoderModel", m)); }
             if let Built::Model(m) = &ne { run!(rep, case, expr.chk_enc::<_, P>("NonContiguousCategoricalEncoderModel", m)); }
